@@ -2,6 +2,7 @@ import QipVerif.Lemmas.ConcatTop
 import QipVerif.Lemmas.ConcatCont
 import QipVerif.Lemmas.ConcatPoints
 import QipVerif.Lemmas.ConcatCompile
+import QipVerif.Lemmas.ConcatGap
 /-!
 # C12 — compiled control pulses are exactly the scheduled instruction waveforms
 
@@ -275,5 +276,38 @@ theorem gap_counterexample :
   · decide +kernel
   · decide +kernel
   · decide +kernel
+
+/-! ### The repaired idle-gap test (fixes/C12-3.patch)
+
+`np.abs(start_time - last_pulse_time) > 1e-12 * (largest start time)` instead of `> step_size * 1e-6`: the hypothesis no
+longer involves the length of the following pulse.  `ValidG thr 0 instrs` = `Chain 0 instrs` together with "every idle gap
+is `0` or `> thr`", `thr = ρ · maxStart chans` — a bound at the level of the rounding of the scheduled times. -/
+
+/-- **`_concatenate_pulses` with the repaired gap test** (with or without fixes/C12-2.patch): it succeeds and every channel
+is the closed form `closedChannel` (first-pulse chunk, tolerance-free lists, padding) with one common final time ≥ every
+channel's end and one positive min step.  The scale hypothesis `Sep` is gone. -/
+theorem gap_repaired_concatenate (ρ τ : Rat) (hρ : 0 ≤ ρ) (hτ : 0 < τ) (chans : List (List (Rat × Wave)))
+    (hne : chans ≠ []) (hch : ∀ ch ∈ chans, ch ≠ [] ∧ ValidG (ρ * maxStart chans) 0 ch) :
+    ∃ (pm : Mode) (final ms : Rat), 0 < ms ∧ (∀ ch ∈ chans, endOf 0 ch ≤ final) ∧
+      ∀ emptyOk, concatenateG emptyOk ρ τ chans = .ok (chans.map fun ch => some (closedChannel τ pm final ms ch)) :=
+  concatenateG_channels ρ τ hρ hτ chans hne hch
+
+/-- **The closed form is the schedule** — from `Chain` alone (no scale hypothesis): grid from 0 strictly increasing, length
+fits the kind, step function = scheduled function for discrete channels, every point explained for every channel (mixed
+included) and every instruction point present.  (`compiledChannel` equals this closed form under `Sep`,
+`concatenateG` under `ValidG`.) -/
+theorem closed_channel_is_schedule (τ : Rat) (hτ : 0 < τ) (pm : Mode) (final ms : Rat) (hms : 0 < ms)
+    (s : Rat) (w : Wave) (rest : List (Rat × Wave)) (hc : Chain 0 ((s, w) :: rest)) :
+    let gc := closedChannel τ pm final ms ((s, w) :: rest)
+    gc.1.head? = some 0 ∧ gc.1.Pairwise (· < ·) ∧
+    (w.mode = .discrete → gc.2.length + 1 = gc.1.length) ∧ (w.mode = .continuous → gc.2.length = gc.1.length) ∧
+    ((∀ sw ∈ (s, w) :: rest, sw.2.mode = .discrete) → ∀ t, stepAt gc.1 gc.2 t = specAt ((s, w) :: rest) t) ∧
+    (∀ xv ∈ pairsOf w.mode gc.1 gc.2, PointExplained ((s, w) :: rest) xv) ∧
+    (∀ sw ∈ (s, w) :: rest, ∀ yc ∈ sw.2.points, (sw.1 + yc.1, yc.2) ∈ pairsOf w.mode gc.1 gc.2) :=
+  closedChannel_is_schedule τ hτ pm final ms hms s w rest hc
+
+-- the witness of `gap_counterexample` under the repaired gap test: the idle point at t = 2 is there
+example : (concatenateG false (1/1000000000000) (1/1000000) [[(0, .scalar 1 (1/2)), (2, .scalar 2097152 (3/4))]]).toOption
+    = some [some ([0, 1, 2, 2097154], [1/2, 0, 3/4])] := by decide +kernel
 
 end QipVerif.C12
